@@ -7,7 +7,8 @@ role (iterate, last step, step before last, residual, slope, end with f<0, end w
 the initial carry and confirmed by the behaviour of the loop body -- never from a name, a position or a statement shape.
 
   O1  the iteration starts from the guess clipped into the bracket; NaN without a sign change; an end point that is itself a root
-      wins over both (10 situations of bracket signs / guess position);
+      wins over both (10 situations of bracket signs / guess position); an end point whose residual is tiny but not zero and above
+      r_tol is NOT a root (18 more situations, residuals 1e-9 / 1e-17 / 1e-310 at either end, with and without a sign change);
   O2  end-point pairing: f(bracket[0]) == 0 selects bracket[0], f(bracket[1]) == 0 selects bracket[1];
   O3  orientation and bracket maintenance use one sign convention (the `low' end is where f < 0);
   O4  the bisection step is the midpoint of the current bracket; the Newton step is x - f/f'; Newton is rejected when it leaves
@@ -17,7 +18,10 @@ the initial carry and confirmed by the behaviour of the loop body -- never from 
       step-before-last) and the loop guard is `not converged and counter < max_iters`;
   O6  the convergence flag is stagnation | |step| < x_tol | |f| < r_tol, and the result is masked by it (NaN otherwise);
   O7  implicit differentiation: find_root hands the user function, the guess, a solver that depends only on what custom_root passes
-      in, and the tangent solve y / g(1) (both signs of the slope) to jax.lax.custom_root with has_aux.
+      in, and the tangent solve y / g(1) (both signs of the slope) to jax.lax.custom_root with has_aux.  `The user function' is
+      extensional: called on t + eps (dual number) for t strictly inside the bracket and t = either end point -- every point a
+      returned root can be -- the handed function must have value f(t) and slope f'(t) (minimum / maximum / clip / clamp /
+      stop_gradient carry JAX's tangent rules, ties included).
 Not decided: that the returned value meets the tolerance and lies in the bracket for every function (trajectory).
 """
 from __future__ import annotations
@@ -27,16 +31,16 @@ from fractions import Fraction as F
 
 from optilint.core import Incomplete
 from optilint.tensoreval import Dual, PyFunc, Record, _A
-from .C17_sym import RootModel, flatten, is_nan, const_of, EVAL_ERRORS
+from .C17_sym import RootModel, flatten, is_nan, const_of, EVAL_ERRORS, EvalError
 
 LEVEL = "other"
 RULE_TEXT = ("obligations = (situation of the bracket / guess x value of the initial carry) + (situation of one loop step x value of the returned carry) + "
              "(use of the loop result) + custom_root wiring + settings wiring")
 EXPLANATION = ("find_root is interpreted symbolically (opaque user function f@x / df@x, comparisons decided at one rational sample per situation; custom_root "
                "and while_loop are recorders, the carry is any pytree, roles of its leaves are derived from values and behaviour): the initial carry in "
-               "10 situations of bracket signs and guess position, one loop step in 11 situations (Newton admissible / leaves the bracket / too slow, decreasing "
+               "10 situations of bracket signs and guess position plus 18 with a tiny non-zero end-point residual above r_tol (not a root), one loop step in 11 situations (Newton admissible / leaves the bracket / too slow, decreasing "
                "function, each tolerance alone, stagnation) with exact comparison of the new iterate, step, bracket, residual and slope slots, counter and flag, "
-               "the loop guard, and the masking of the result by the flag; what find_root hands to custom_root (solver called on fresh arguments, tangent solve "
+               "the loop guard, and the masking of the result by the flag; what find_root hands to custom_root (residual with the user function's value and slope on the closed bracket, solver called on fresh arguments, tangent solve "
                "for both signs of the slope); get_settings' parameters reaching the tests they are named after. That the iteration reaches the tolerance for "
                "every function is trajectory dependent and not decided.")
 
@@ -53,6 +57,8 @@ def run(ctx):
     ctx.need(f"{SR}:get_settings")
     ctx.guard(analyse, ctx, fr)
     ctx.trust("jax.lax.custom_root(f, x0, solve, tangent_solve) differentiates the root implicitly with tangent_solve(g, y) = y / g(1) for scalar g")
+    ctx.trust("jax differentiates minimum / maximum (and jax.numpy.clip, which is minimum(maximum(x, lo), hi)) by the tangent of the selected operand and "
+              "by the mean of both tangents where the operands are equal; lax.clamp and lax.stop_gradient pass no tangent at a bound / at all")
     ctx.trust("jax.lax.while_loop(cond, body, init) iterates body on a pytree carry while cond holds; lax.cond / lax.switch / np.where select by the predicate")
 
 
@@ -82,6 +88,27 @@ REGIONS = [
     ("right-end-is-root", {"f@b0": F(-1), "f@b1": F(0)}, "b1", None, True),
     ("right-end-is-root,guess-outside", {"f@b0": F(1), "f@b1": F(0), "x0": F(9)}, "b1", None, True),
 ]
+
+# an end point whose residual is small but not zero -- and larger than the r_tol that was asked for -- is not a root: the solver must iterate
+# (or answer NaN when there is no sign change).  The magnitudes lie below the absolute thresholds a floating-point `is it zero' test could
+# use (isclose's 1e-8, machine epsilon, the smallest normal number); r_tol is three decades smaller still.
+def _near_zero_regions():
+    out = []
+    for k in (9, 17, 310):
+        tiny, tol = F(1, 10 ** k), {"rtol": F(1, 10 ** (k + 3)), "xtol": F(1, 10 ** (k + 3))}
+        out += [
+            (f"left-end-residual=-1e-{k},not-a-root,sign-change", dict(tol, **{"f@b0": -tiny, "f@b1": F(1)}), "x0", ("b0", "b1"), False),
+            (f"left-end-residual=+1e-{k},not-a-root,sign-change", dict(tol, **{"f@b0": tiny, "f@b1": F(-1)}), "x0", ("b1", "b0"), False),
+            (f"right-end-residual=+1e-{k},not-a-root,sign-change", dict(tol, **{"f@b0": F(-1), "f@b1": tiny}), "x0", ("b0", "b1"), False),
+            (f"right-end-residual=-1e-{k},not-a-root,sign-change,guess-outside", dict(tol, **{"f@b0": F(1), "f@b1": -tiny, "x0": F(9)}), "b1", ("b1", "b0"), False),
+            (f"left-end-residual=+1e-{k},not-a-root,no-sign-change", dict(tol, **{"f@b0": tiny, "f@b1": F(1)}), "nan", None, False),
+            (f"right-end-residual=-1e-{k},not-a-root,no-sign-change", dict(tol, **{"f@b0": F(-1), "f@b1": -tiny}), "nan", None, False),
+        ]
+    return out
+
+
+REGIONS += _near_zero_regions()
+_END_RULE = lambda lab: "is-root" in lab or "not-a-root" in lab
 
 _STD = dict(Cx=F(1), Cd=F(1, 10), Co=F(1), CF=F(1, 10), CD=F(1), Cl=F(0), Ch=F(2), Ci=F(3))
 _T = lambda x, r: {"xtol": x, "rtol": r}
@@ -232,7 +259,7 @@ class _Analysis:
             add("O6/T1-result-masked", None, "nan-unless-converged", f"cannot interpret the code after the loop: {ex}", kind="result")
         # ---- O1/O2/O3: preparation of the guess and orientation, by situation
         for lab, ov, eroot, ebr, econv in REGIONS:
-            rule = "O1-O2/T5-endpoint-pairing" if "is-root" in lab else "O1-O2/T2-guess-preparation-order"
+            rule = "O1-O2/T5-endpoint-pairing" if _END_RULE(lab) else "O1-O2/T2-guess-preparation-order"
             env = dict(BASE)
             env.update(ov)
             try:
@@ -260,7 +287,10 @@ class _Analysis:
             what = {"x0": "the guess", "b0": "bracket[0]", "b1": "bracket[1]", "nan": "NaN"}[eroot]
             add(rule, (okr and okc) if isinstance(c0, bool) else None, f"initial-iterate[{lab}]", f"iteration starts from {what}, converged = {econv}",
                 f"in the situation [{lab}] the iteration starts from `{_show(r0, 50)}` with converged = {c0}; the contract requires {what} "
-                f"with converged = {econv} (clip the guess into the bracket, NaN without a sign change, an end point that is a root wins)", kind="region")
+                f"with converged = {econv} (clip the guess into the bracket, NaN without a sign change, an end point that is a root wins)" +
+                (f"; the residual at that end point is not zero and exceeds r_tol = {env['rtol']}: an end point that is not a root is treated as one "
+                 f"(the test for `this end is a root' is not exact), so a point that does not meet the requested tolerance is returned as converged"
+                 if "not-a-root" in lab else ""), kind="region")
             if ebr is not None:
                 okb = _eqv(I3, ini[role["xl"]], A(ebr[0])) and _eqv(I3, ini[role["xh"]], A(ebr[1]))
                 add("O3/T6-sign-convention", okb, f"orientation[{lab}]", f"(end with f<0, end with f>0) = ({ebr[0]}, {ebr[1]})",
@@ -473,8 +503,12 @@ def wiring(ctx, M, fr, run):
     cr, I = run.custom_root, run.I
     facts = []
     try:
-        ok_f = _eqv(I, I.call(cr["f"], [A("t")], {}), A("fo@t"))
-        facts.append(f"the residual handed over is the user function: {ok_f}")
+        ok_f, why_f = handed_residual(M, cr)
+        if ok_f is None:
+            ctx.undecided(rule, fr, None, construct=construct, detail=f"cannot interpret the residual find_root hands to custom_root: {why_f}")
+            return
+        facts.append(f"the residual handed over has the value and the slope of the user function at every point of the closed bracket: {ok_f}" +
+                     (f" ({why_f})" if why_f else ""))
         ok_x = _eqv(I, cr["initial_guess"], A("x0o"))
         facts.append(f"the initial guess is find_root's x0: {ok_x}")
         aux = cr["has_aux"] is True
@@ -510,6 +544,45 @@ def wiring(ctx, M, fr, run):
     ok = ok_f and ok_x and aux and pair and ok_s and ok_t
     ctx.decide(rule, bool(ok), fr, None, construct=construct, detail="; ".join(facts),
                bad_detail="find_root does not hand (user function, guess, solver of its own arguments, y/g(1), has_aux=True) to custom_root: " + "; ".join(facts))
+
+
+def handed_residual(M, cr):
+    """custom_root linearises the function it is handed at the returned root, and the returned root is a point of the *closed* bracket
+    (interior, or an end point that is itself a root).  So at every such point t the handed function must have the user function's
+    value fo(t) and slope fo'(t): it is called on t + eps (dual number; t strictly inside, t = bracket[0], t = bracket[1]) and both
+    parts are compared.  Outside the bracket the solver never evaluates it: a difference there is noted, it does not decide.
+    -> (True, note) | (False, what differs) | (None, why it cannot be interpreted)"""
+    from optilint.tensoreval import ONE
+    points = [("a point t strictly inside the bracket", A("t"), {"t": F(1)}, True), ("t = bracket[0]", A("b0"), {}, True), ("t = bracket[1]", A("b1"), {}, True),
+              ("a point t below the bracket", A("t"), {"t": F(-3)}, False), ("a point t above the bracket", A("t"), {"t": F(7)}, False)]
+    bad, notes = [], []
+    for where, t, ov, decides in points:
+        env = dict(BASE)
+        env.update(ov)
+        It = M.interp(env)
+        try:
+            got = It.num(It.call(cr["f"], [Dual(t.a, ONE)], {}))
+            if not isinstance(got, Dual):
+                raise EvalError("not a scalar")
+        except EVAL_ERRORS as ex:
+            if decides:
+                return None, f"at {where}: {ex}"
+            continue
+        key = M.key(It, t)
+        same_v = _A.equal(got.a, _A.atom(f"fo@{key}"))
+        same_d = _A.equal(got.b, _A.atom(f"dfo@{key}"))
+        if same_v and same_d:
+            continue
+        what = (f"at {where} the handed function has " +
+                (f"the value `{_show(Dual(got.a), 40)}` instead of f(t)" if not same_v else f"the slope `{_show(Dual(got.b), 40)}` instead of f'(t) = dfo@{key}"))
+        if decides:
+            bad.append(what + (": the implicit derivative of a root found there is y / (that slope), not the implicit-function-theorem value" if same_v else
+                               ": custom_root differentiates a different equation than the one the user posed"))
+        else:
+            notes.append(what + " (never evaluated there: harmless)")
+    if bad:
+        return False, "; ".join(bad)
+    return True, "; ".join(notes)
 
 
 # ------------------------------------------------------------------ O4: settings factory
@@ -582,6 +655,9 @@ def _replace_loop(new_block):
     return f
 
 
+_CR = "    return jax.lax.custom_root(f, x0, lambda F, X0: rtsafe_(F, X0, bracket, settings),"
+
+
 def variants(repo):
     from optilint.selftest import Variant, sub, sub_in_func, reformat
     S = "optimism/ScalarRootFind.py"
@@ -632,6 +708,24 @@ def variants(repo):
         Variant("solver ignores clipped bracket", S, sub("lambda F, X0: rtsafe_(F, X0, bracket, settings)", "lambda F, X0: rtsafe_(F, x0, bracket, settings)"), "O7/T5-custom-root-wiring"),
         Variant("solver iterates on the outer function", S, sub("lambda F, X0: rtsafe_(F, X0, bracket, settings)", "lambda F, X0: rtsafe_(f, X0, bracket, settings)"), "O7/T5-custom-root-wiring"),
         Variant("aux output dropped", S, sub(", has_aux=True)", ", has_aux=False)"), "O7/T5-custom-root-wiring"),
+        # the function custom_root linearises is not the user's function at a root that sits on an end point / anywhere
+        Variant("residual clipped to the bracket before it is handed to custom_root", S,
+                sub(_CR, "    lo, hi = bracket[0], bracket[1]\n    f_in_bracket = lambda x: f(np.clip(x, lo, hi))\n" + _CR.replace("(f, x0,", "(f_in_bracket, x0,")), "O7/T5-custom-root-wiring"),
+        Variant("residual guarded by maximum with the lower end only", S,
+                sub(_CR, "    def guarded(x):\n        return f(np.maximum(bracket[0], x))\n" + _CR.replace("(f, x0,", "(guarded, x0,")), "O7/T5-custom-root-wiring"),
+        Variant("residual clamped by lax.clamp", S,
+                sub(_CR, _CR.replace("(f, x0,", "(lambda x: f(jax.lax.clamp(bracket[0], x, bracket[1])), x0,")), "O7/T5-custom-root-wiring"),
+        Variant("residual evaluated at a stop_gradient of its argument", S,
+                sub(_CR, _CR.replace("(f, x0,", "(lambda x: f(jax.lax.stop_gradient(x)), x0,")), "O7/T5-custom-root-wiring"),
+        # an end point that is not a root is taken for one
+        Variant("end-point root tests by np.isclose", S, chain(sub("    leftBracketIsSolution = (fl == 0.0)", "    leftBracketIsSolution = np.isclose(fl, 0.0)"),
+                                                              sub("    rightBracketIsSolution = (fh == 0.0)", "    rightBracketIsSolution = np.isclose(fh, 0.0)")), "O1-O2/T5-endpoint-pairing"),
+        Variant("left end-point root test against machine epsilon", S,
+                sub("    leftBracketIsSolution = (fl == 0.0)", "    leftBracketIsSolution = np.abs(fl) < np.finfo(float).eps"), "O1-O2/T5-endpoint-pairing"),
+        Variant("right end-point root test with a fixed absolute tolerance", S,
+                sub("    rightBracketIsSolution = (fh == 0.0)", "    rightBracketIsSolution = np.abs(fh) <= 1e-12"), "O1-O2/T5-endpoint-pairing"),
+        Variant("right end-point root test against x_tol", S,
+                sub("    rightBracketIsSolution = (fh == 0.0)", "    rightBracketIsSolution = np.abs(fh) <= 1e3*x_tol"), "O1-O2/T5-endpoint-pairing"),
         # ---- preserving
         Variant("reformat", S, reformat(), None),
         Variant("carry as a reordered namedtuple with _replace, np.where maintenance", S, _replace_loop(_NT_CARRY), None),
@@ -653,6 +747,12 @@ def variants(repo):
                       sub("    xl, xh = jax.lax.cond(fl < 0,\n                          lambda b: (b[0], b[1]),\n                          lambda b: (b[1], b[0]),\n                          bracket)\n",
                           "    xLeft, xRight = bracket\n    leftIsPositive = ~(fl < 0)\n    xl = jax.lax.select(leftIsPositive, xRight, xLeft)\n    xh = jax.lax.select(leftIsPositive, xLeft, xRight)\n")), None),
         Variant("settings factory through a local and keywords", S, sub("    return Settings(max_iters, x_tol, r_tol)", "    s = Settings(r_tol=r_tol, max_iters=max_iters, x_tol=x_tol)\n    return s"), None),
+        Variant("residual guarded outside the bracket by where (identity with slope 1 on the closed bracket)", S,
+                sub(_CR, "    lo, hi = bracket[0], bracket[1]\n    guarded = lambda x: f(np.where(x < lo, lo, np.where(x > hi, hi, x)))\n" + _CR.replace("(f, x0,", "(guarded, x0,")), None),
+        Variant("residual handed over through a pass-through wrapper", S,
+                sub(_CR, "    def residual(x, *unused):\n        y = f(1.0*x + 0.0)\n        return y\n" + _CR.replace("(f, x0,", "(residual, x0,")), None),
+        Variant("end-point root tests by np.equal and |.| <= 0", S, chain(sub("    leftBracketIsSolution = (fl == 0.0)", "    leftBracketIsSolution = np.equal(fl, 0.0)"),
+                                                                        sub("    rightBracketIsSolution = (fh == 0.0)", "    rightBracketIsSolution = np.abs(fh) <= 0.0")), None),
         Variant("value and slope evaluated separately", S, sub("    f_and_fprime = jax.value_and_grad(f)\n", "    fprime = jax.grad(f)\n    f_and_fprime = lambda t: (f(t), fprime(t))\n"), None),
     ] + _corpus_variants(S)
 
